@@ -70,6 +70,18 @@ func (t *MemTable) ScanPrefix(prefix []byte) iter.Seq[kv.Entry] {
 	}
 }
 
+// ScanPrefixAll is like ScanPrefix but includes delete markers so that a caller
+// merging the result with older data can mask the older entries.
+func (t *MemTable) ScanPrefixAll(prefix []byte) iter.Seq[kv.Entry] {
+	return func(yield func(kv.Entry) bool) {
+		for node := range t.zt.AscendPrefix(prefix) {
+			if !yield(newEntryFromNode(node)) {
+				return
+			}
+		}
+	}
+}
+
 // Returns all items in the table including deleted items. A current limitation
 // of go generics is that they can't understand when type variables are
 // satisfied by an interface. So we cast the type to the general kv.Entry type.
